@@ -1,1 +1,222 @@
-// harnesses for automerge/src/storage/parse/leb128.rs
+// G-LEB: LEB128 parsers (child module of automerge::storage::parse::leb128).
+use super::*;
+use crate::storage::parse::Needed;
+
+// Reference encoders written from the LEB128 definition (independent of the `leb128` crate).
+fn ref_uleb(mut v: u64, out: &mut [u8; 10]) -> usize {
+    let mut n = 0;
+    loop {
+        let b = (v & 0x7f) as u8;
+        v >>= 7;
+        if v == 0 {
+            out[n] = b;
+            return n + 1;
+        }
+        out[n] = b | 0x80;
+        n += 1;
+    }
+}
+
+fn ref_sleb(mut v: i64, out: &mut [u8; 10]) -> usize {
+    let mut n = 0;
+    loop {
+        let b = (v & 0x7f) as u8;
+        v >>= 7; // arithmetic
+        let done = (v == 0 && b & 0x40 == 0) || (v == -1 && b & 0x40 != 0);
+        if done {
+            out[n] = b;
+            return n + 1;
+        }
+        out[n] = b | 0x80;
+        n += 1;
+    }
+}
+
+/// parse(encode(v)) = v and consumes exactly the encoding, for every u64.
+#[kani::proof]
+#[kani::unwind(12)]
+fn leb_u64_roundtrip_all_values() {
+    let v: u64 = kani::any();
+    let mut buf = [0u8; 10];
+    let n = ref_uleb(v, &mut buf);
+    match leb128_u64::<Error>(Input::new(&buf[..n])) {
+        Ok((rest, got)) => {
+            assert_eq!(got, v);
+            assert!(rest.is_empty());
+        }
+        Err(_) => panic!("canonical encoding rejected"),
+    }
+    // what the repository's own writer (the leb128 crate) produces is that same encoding
+    let mut w = [0u8; 10];
+    let mut cur = &mut w[..];
+    let wn = ::leb128::write::unsigned(&mut cur, v).unwrap();
+    assert_eq!(wn, n);
+    let mut k = 0;
+    while k < 10 {
+        if k < n {
+            assert_eq!(w[k], buf[k]);
+        }
+        k += 1;
+    }
+    assert_eq!(crate::columnar::encoding::leb128::ulebsize(v), n as u64);
+    kani::cover!(n == 10);
+    kani::cover!(n == 1);
+}
+
+#[kani::proof]
+#[kani::unwind(12)]
+fn leb_i64_roundtrip_all_values() {
+    let v: i64 = kani::any();
+    let mut buf = [0u8; 10];
+    let n = ref_sleb(v, &mut buf);
+    match leb128_i64::<Error>(Input::new(&buf[..n])) {
+        Ok((rest, got)) => {
+            assert_eq!(got, v);
+            assert!(rest.is_empty());
+        }
+        Err(_) => panic!("canonical encoding rejected"),
+    }
+    let mut w = [0u8; 10];
+    let mut cur = &mut w[..];
+    let wn = ::leb128::write::signed(&mut cur, v).unwrap();
+    assert_eq!(wn, n);
+    let mut k = 0;
+    while k < 10 {
+        if k < n {
+            assert_eq!(w[k], buf[k]);
+        }
+        k += 1;
+    }
+    assert_eq!(crate::columnar::encoding::leb128::lebsize(v), n as u64);
+    kani::cover!(n == 10 && v < 0);
+    kani::cover!(n == 1 && v < 0);
+    kani::cover!(n == 10 && v > 0);
+}
+
+/// Total on every N-byte input; whatever is accepted is the canonical (shortest) encoding of the
+/// value returned, so no two byte strings of the same length decode to the same value, and at
+/// most 10 bytes are consumed.
+fn u64_total<const N: usize>() {
+    let bytes: [u8; N] = kani::any();
+    match leb128_u64::<Error>(Input::new(&bytes)) {
+        Ok((rest, v)) => {
+            let used = N - rest.unconsumed_bytes().len();
+            assert!(used >= 1 && used <= 10);
+            let mut buf = [0u8; 10];
+            let n = ref_uleb(v, &mut buf);
+            assert_eq!(n, used);
+            let mut k = 0;
+            while k < N && k < 10 {
+                if k < n {
+                    assert_eq!(buf[k], bytes[k]);
+                }
+                k += 1;
+            }
+            kani::cover!(used == N || N > 10);
+            kani::cover!(used == 1);
+        }
+        Err(ParseError::Incomplete(Needed::Size(k))) => {
+            // only when every byte carries the continuation bit and fewer than 10 were available
+            assert!(N < 10);
+            assert_eq!(k.get(), 1);
+            let mut i = 0;
+            while i < N {
+                assert!(bytes[i] & 0x80 != 0);
+                i += 1;
+            }
+        }
+        Err(ParseError::Incomplete(Needed::Unknown)) => panic!("never produced"),
+        Err(ParseError::Error(e)) => {
+            assert!(e == Error::Leb128TooLarge || e == Error::Leb128Overlong);
+            kani::cover!(e == Error::Leb128Overlong);
+        }
+    }
+}
+
+fn i64_total<const N: usize>() {
+    let bytes: [u8; N] = kani::any();
+    match leb128_i64::<Error>(Input::new(&bytes)) {
+        Ok((rest, v)) => {
+            let used = N - rest.unconsumed_bytes().len();
+            assert!(used >= 1 && used <= 10);
+            let mut buf = [0u8; 10];
+            let n = ref_sleb(v, &mut buf);
+            assert_eq!(n, used);
+            let mut k = 0;
+            while k < N && k < 10 {
+                if k < n {
+                    assert_eq!(buf[k], bytes[k]);
+                }
+                k += 1;
+            }
+            kani::cover!(v < 0 && (used == N || N > 10));
+            kani::cover!(v >= 0 && used == 1);
+        }
+        Err(ParseError::Incomplete(_)) => {
+            assert!(N < 10);
+        }
+        Err(ParseError::Error(e)) => {
+            assert!(e == Error::Leb128TooLarge || e == Error::Leb128Overlong);
+            kani::cover!(e == Error::Leb128Overlong);
+        }
+    }
+}
+
+macro_rules! total_harness {
+    ($name:ident, $f:ident, $n:expr) => {
+        #[kani::proof]
+        #[kani::unwind(12)]
+        fn $name() {
+            $f::<$n>()
+        }
+    };
+}
+total_harness!(leb_u64_total_len2, u64_total, 2);
+total_harness!(leb_u64_total_len3, u64_total, 3);
+total_harness!(leb_u64_total_len9, u64_total, 9);
+total_harness!(leb_u64_total_len10, u64_total, 10);
+total_harness!(leb_u64_total_len11, u64_total, 11);
+total_harness!(leb_i64_total_len2, i64_total, 2);
+total_harness!(leb_i64_total_len3, i64_total, 3);
+total_harness!(leb_i64_total_len10, i64_total, 10);
+total_harness!(leb_i64_total_len11, i64_total, 11);
+
+/// The u32 and non-zero variants accept exactly the u64 results that fit / are non-zero.
+#[kani::proof]
+#[kani::unwind(12)]
+fn leb_u32_and_nonzero_variants() {
+    let bytes: [u8; 6] = kani::any();
+    let base = leb128_u64::<Error>(Input::new(&bytes));
+    let r32 = leb128_u32::<Error>(Input::new(&bytes));
+    let rnz = nonzero_leb128_u64::<Error>(Input::new(&bytes));
+    match base {
+        Ok((rest, v)) => {
+            if v <= u32::MAX as u64 {
+                match r32 {
+                    Ok((r2, w)) => {
+                        assert_eq!(w as u64, v);
+                        assert_eq!(r2.unconsumed_bytes().len(), rest.unconsumed_bytes().len());
+                    }
+                    Err(_) => panic!("fits in u32 but rejected"),
+                }
+            } else {
+                assert!(matches!(r32, Err(ParseError::Error(Error::Leb128TooLarge))));
+            }
+            if v != 0 {
+                match rnz {
+                    Ok((_, w)) => assert_eq!(w.get(), v),
+                    Err(_) => panic!("non-zero rejected"),
+                }
+            } else {
+                assert!(matches!(rnz, Err(ParseError::Error(Error::UnexpectedZero))));
+            }
+            kani::cover!(v > u32::MAX as u64);
+            kani::cover!(v == 0);
+            kani::cover!(v == u32::MAX as u64);
+        }
+        Err(_) => {
+            assert!(r32.is_err() && rnz.is_err());
+            kani::cover!(true);
+        }
+    }
+}
